@@ -1,7 +1,7 @@
 /-
 M-Proto, concrete runs of the host automaton (C16): a conforming two-plugin run, and
-the witness for finding D41 (a goodbye failure makes the host fail without naming the
-plugin). Everything here is evaluated by the kernel (`decide`).
+the regression case of finding D41 (fixed: a goodbye failure used to make the host fail
+without naming the plugin). Everything here is evaluated by the kernel (`decide`).
 -/
 import ThriftVerif.Proto.Host
 
@@ -59,12 +59,12 @@ theorem conforming_run :
   decide
 
 set_option maxRecDepth 100000 in
-/-- finding D41: plugin `b` fails only at goodbye; the run fails, the files were written,
-and no plugin is named by the error output. -/
-theorem goodbye_failure_unnamed_run :
+/-- regression case for D41 (fixed): plugin `b` fails only at goodbye; the run fails after the
+files were written, and the error output names `b` and only `b`. -/
+theorem goodbye_failure_named_run :
     (run cfgD41).exit = .fail ∧ (run cfgD41).wrote.isSome = true ∧
     (run cfgD41).recs.map (·.errs) = [[], [.goodbye]] ∧
-    (run cfgD41).recs.map namedIn = [false, false] := by
+    (run cfgD41).recs.map namedIn = [false, true] := by
   decide
 
 end ThriftVerif.Proto
